@@ -7,6 +7,7 @@ import PysnarkModel.Driver.ProtoSelect
 import PysnarkModel.Driver.ProtoStruct
 import PysnarkModel.Driver.ProtoHash
 import PysnarkModel.Driver.ProtoZkif
+import PysnarkModel.Driver.ProtoBlock
 import PysnarkModel.Driver.ProtoQaptools
 open Pysnark Pysnark.Proto
 
@@ -23,6 +24,7 @@ def handle (line : String) : String :=
   | "Z" :: rest => ProtoZkif.handleZkif rest
   | "Q" :: rest => ProtoQaptools.handleQap rest
   | "PH" :: rest => ProtoHash.handlePoseidon rest
+  | "BL" :: rest => ProtoBlock.handleBlock rest
   | "PS" :: rest => ProtoHash.handleParams rest
   | "PG" :: rest => ProtoHash.handleGgh rest
   | "NI" :: rest => ProtoStruct.handleSnark true rest
